@@ -57,6 +57,34 @@ def search_group(seed, n):
         rng = Rng(seed, "search_group|" + cname)
         for k in range(n):
             a, b, c = rand_pose(rng, cname), rand_pose(rng, cname), rand_pose(rng, cname)
+            # special operand pairs: the same orientation at another position (bit-identical angle / quaternion: straight-line
+            # motion), identical poses, the identity written with q = (0,0,0,-1), zero translation
+            sp = rng.random()
+            npos = 2 if cname in ("PoseR2", "PoseSE2") else 3
+            if sp < 0.15:
+                bv = np.asarray(b).copy()
+                bv[npos:] = np.asarray(a)[npos:]
+                b = type(b)(bv[:2], bv[2]) if cname == "PoseSE2" else type(b)(bv[:3], bv[3:]) if cname == "PoseSE3" else b
+            elif sp < 0.2:
+                b = a.copy()
+            elif sp < 0.3 and cname == "PoseSE3":
+                b = PoseSE3([0.0, 0.0, 0.0] if rng.random() < 0.5 else list(np.asarray(b)[:3]), [0.0, 0.0, 0.0, -1.0])
+            elif sp < 0.35:
+                bv = np.asarray(b).copy()
+                bv[:npos] = 0.0
+                b = type(b)(bv[:2], bv[2]) if cname == "PoseSE2" else type(b)(bv[:3], bv[3:]) if cname == "PoseSE3" else type(b)(bv)
+            # history on the operands: use them once, then edit them *in place* (poses are mutable arrays), then ask again:
+            # nothing remembered from the first use may leak into the second
+            if rng.random() < 0.35:
+                for made in (a + b, a - b, b + a, a.inverse):
+                    pass
+                if cname in ("PoseSE2", "PoseSE3") :
+                    xs = [rng.uniform(-1, 1) for _ in range(npos)]
+                    a2 = rand_pose(rng, cname)
+                    a[:] = np.asarray(a2)
+                    b[npos:] = np.asarray(rand_pose(rng, cname))[npos:]
+                else:
+                    a[:] = np.asarray(rand_pose(rng, cname))
             sc = (1 + max(float(np.max(np.abs(np.asarray(v)))) for v in (a, b, c))) ** 3
             # history: what a call returned belongs to the caller (poses are mutable arrays; building a pose by filling
             # in `identity()` is ordinary use): writing into earlier results must not change later answers
@@ -111,7 +139,8 @@ def search_group(seed, n):
                     v = np.array([rng.gauss(0, 1) for _ in range(3)])
                     axis = v / np.linalg.norm(v)
                     axis = axis / math.sqrt(float(axis @ axis))
-                if float(axis @ axis) == 1.0 and float(np.linalg.norm(axis)) <= 1.0:
+                # (float-normalised directions: the computed norm is exactly 1.0 while the sum of squares may be 1 + 2^-52)
+                if float(np.linalg.norm(axis)) <= 1.0:
                     dl = np.concatenate([delta[:3], axis])
                     checks.append(("boxplus_unit_rotation_increment", H(a + dl), H(a) @ H(PoseSE3(dl[:3], list(axis) + [0.0]))))
             for name, X, Y in checks:
@@ -158,6 +187,13 @@ def search_invariants(seed, chains, length):
                     dxv = np.array([rng.gauss(0, sc) for _ in range(c)])
                     if cname == "PoseSE2" and rng.random() < 0.5:
                         dxv[2] = rng.sign() * rng.logu(3.0, 1e6)
+                    if cname == "PoseSE3" and rng.random() < 0.25:
+                        # a half-turn step: rotation part normalised in floating point (norm exactly 1.0 as computed,
+                        # sum of squares possibly one ulp above 1)
+                        d3 = np.array([rng.gauss(0, 1) for _ in range(3)])
+                        d3 = d3 / np.linalg.norm(d3)
+                        if float(np.linalg.norm(d3)) <= 1.0:
+                            dxv[3:] = d3
                     r = a.copy()
                     r += dxv
                 else:
